@@ -119,6 +119,10 @@ pub(crate) async fn finish<A: Actor>(
         exit = ActorExit::Failed(error);
     }
 
+    // Requests that are still queued will never be handled. Drop them now so that
+    // pending calls resolve to `NoReply`: the channel would otherwise keep them
+    // alive for as long as any `Mailbox` exists, i.e. for as long as the caller waits.
+    receiver.discard_queued();
     drop(receiver);
     if let Err(error) = actor.post_stop(myself, state).await
         && matches!(exit, ActorExit::Stopped)
